@@ -30,10 +30,15 @@ def rotate_instance(I, M, d):
     return J
 
 
-def lib_eval_rotated(I, J, C, what):
+def lib_eval_rotated(I, J, C, what, prepared_first=False):
     """library values in the rotated frame; ham_data is rotated with ham.rotate_orbs"""
     import jax.numpy as jnp
     trial, wd, hd, ham = wf.build_lib(J)
+    if prepared_first:
+        # a Hamiltonian that already carries measurement intermediates (of the UNROTATED trial) is rotated and then
+        # prepared again for the rotated trial: stale intermediates must not survive
+        t0, wd0, _, _ = wf.build_lib(I)
+        hd = ham.build_measurement_intermediates(hd, t0, wd0)
     hd = ham.rotate_orbs(hd, jnp.array(C))
     ups = jnp.array(np.array([w[0] for w in J["walkers"]]))
     dns = jnp.array(np.array([w[1] for w in J["walkers"]]))
@@ -166,6 +171,9 @@ def run(chk: Check):
         for what in ("ov", "e", "fb"):
             got = lib_eval_rotated(I, J, M / d, what)
             wfcheck.compare(chk, I, ex, got, what, wfcheck.TOL64, "rotated", tag=f"/rotated(d={d})")
+            if what != "ov" and I["id"] % 2 == 0:
+                got = lib_eval_rotated(I, J, M / d, what, prepared_first=True)
+                wfcheck.compare(chk, I, ex, got, what, wfcheck.TOL64, "rotated-after-prepare", tag=f"/prepared,rotated(d={d}),prepared")
         chk.traces += 1
         chk.sample({"kind": I["kind"], "norb": I["norb"], "nelec": [I["nu"], I["nd"]], "rotation_numerator": M.tolist(),
                     "rotation_denominator": d, "exact_energy0": None if ex[0]["zero"] else [ex[0]["e"].real, ex[0]["e"].imag]}, limit=5)
